@@ -124,11 +124,11 @@ CLAIMED = {
          'Trusted: Coq kernel + vm_compute; hand-written model coq/C03/Model.v; harness props/C03.py with solver stubs installed from the '
          'harness process; third-party solvers are oracles; no axioms.',
          'DESIGN.md section 3 C03, section 8'),
- 'C04': ('Coq proof that every Ok branch of the flash leaves T/P at the specified values (all oracles), Rachford-Rice closed form solves RR, RR monotone/unique root + correspondence',
+ 'C04': ('Coq proof that every Ok branch of the flash leaves T/P at the specified values (all oracles), Rachford-Rice closed form solves RR, RR monotone/unique root, and that the bracketing solver (model of flexsolve.IQ_interpolation) returns within its stated resolution for every residual + correspondence (wrapper, kernels generated from source, solver and its call sites)',
          'PARTIAL: T/P clause proved for every branch and oracle; binary RR closed form and uniqueness of the RR root proved; H/S reproduction, '
          'phase-boundary rule, iso-fugacity fixed points and homogeneity are modelled and compared against the code but not yet theorems; '
-         '"V within solver resolution" is a third-party solver contract.',
-         'Trusted: Coq kernel + vm_compute; models coq/C03/Model.v, coq/C04/Model.v; harness props/C04.py; flexsolve contracts; no axioms.',
+         '"V within solver resolution" is a theorem about the model of flexsolve.IQ_interpolation (coq/C04/Flx.v), tied to the installed flexsolve and to the six call sites of vle.py by correspondence.',
+         'Trusted: Coq kernel + vm_compute; models coq/C03/Model.v, coq/C04/Model.v, coq/C04/Flx.v; harness props/C04.py; flexsolve fixed-point contracts; no axioms.',
          'DESIGN.md section 3 C04, section 8'),
 }
 NOT_YET = 'not claimed yet: model and proofs under construction (see DESIGN.md section 8 for status)'  # unused once every property is claimed
